@@ -17,7 +17,7 @@ func init() {
 		Rule: "pairs (S, S'): S rapid-drawn from the JSON, parameter/body, response and composition families; S' = inline-all (every $ref to a schema, parameter, header, request body or response replaced by a copy of its ultimate target), hoist-all (every inline schema / parameter / response moved to a fresh component, one per site) or a rapid-chosen partial mix, each site rewritten only where the result stays inside the dialect; both are generated and compiled into one binary; " +
 			"oracle (metamorphic): shared raw requests (path segments, query, headers from the per-type lexeme classes; JSON bodies from the schema-directed generator and their single-fault mutants) must be routed to the same template, accepted/rejected alike and parsed to equal values after projection to a type-name-free tree; response values drawn in S and injected into S' must be written with the same status, header map and JSON-equivalent body; a rewritten side that does not compile while the original does is a violation; " +
 			"non-trivial = pair whose rewrite changed >=1 site; distinct by (pair, operation, input class)",
-		Assume: []string{"pairs where goag refuses one side are outside the domain", "hoisting never merges two sites into one component", "composite (allOf/oneOf) targets are not inlined at non-component positions"},
+		Assume:    []string{"pairs where goag refuses one side are outside the domain", "hoisting never merges two sites into one component", "composite (allOf/oneOf) targets are not inlined at non-component positions"},
 		Main:      c18Main,
 		MinNonTrv: 200,
 	})
